@@ -1,6 +1,7 @@
 """Unit `wire_decode` (C03, C16): the whole wire decoder under contract: crash-free, terminating, error carries the ID,
 decoded names well-formed, section lengths equal the header counts."""
 from units.base import *
+import re
 from gen import r6_inline_closure
 
 TRUSTED = TRUSTED_COMMON + [
@@ -41,21 +42,42 @@ SPECS = {
         r is Ok ==> r->Ok_0.wf(), // [C03,C16:decoded_name_wf]
         r is Ok ==> final(buffer).position > old(buffer).position,
         r is Err ==> err_id(r->Err_0) == Some(id), // [C03:error_carries_id]
+        r is Ok <==> name_at(old(buffer).octets@, old(buffer).position as int) is Some, // [C03:accepts_exactly_the_well_formed_names]
+        r is Ok ==> vals(r->Ok_0.labels@) == name_at(old(buffer).octets@, old(buffer).position as int)->Some_0.0, // [C03:name_read_as_an_independent_decoder_does]
+        r is Ok ==> final(buffer).position == name_at(old(buffer).octets@, old(buffer).position as int)->Some_0.1, // [C03:name_read_as_an_independent_decoder_does]
     decreases old(buffer).position,""",
-        "entry": "broadcast use lemma_labels_sum_push, lemma_labels_sum_concat;",
+        "entry": "broadcast use lemma_labels_sum_push, lemma_labels_sum_concat, group_name_spec;",
+        "anchors": [{"after": "'outer: loop", "at": "before", "proof": "let ghost b__ = buffer.octets@; proof { lemma_onto_empty(spec_name(b__, old(buffer).position as int, old(buffer).position as int)); assert(vals(labels@) =~= Seq::<Seq<u8>>::empty()); }"},
+                    {"after": "labels.push(Label::new());", "proof": """proof {
+    assert(labels@.last().v() =~= Seq::<u8>::empty());
+    assert(vals(labels@) =~= lv0__ + seq![Seq::<u8>::empty()]);
+    assert(spec_name(b__, old(buffer).position as int, p0__) == Some((seq![Seq::<u8>::empty()], p0__ + 1)));
+}"""},
+                    {"after": "labels.push(label);", "proof": """proof {
+    let sub = b__.subrange(p0__ + 1, buffer.position as int);
+    let lv = labels@.last().v();
+    assert(lv =~= lower_seq(sub));
+    assert(spec_name(b__, old(buffer).position as int, p0__) == onto(seq![lower_seq(sub)], spec_name(b__, old(buffer).position as int, buffer.position as int)));
+    lemma_onto_onto(lv0__, seq![lv], spec_name(b__, old(buffer).position as int, buffer.position as int));
+    assert(vals(labels@) =~= lv0__ + seq![lv]);
+}"""}],
         "loops": {"0": {"kw": "loop", "spec": """            invariant_except_break
-                len <= buffer.position - start,
+                len <= buffer.position - old(buffer).position,
                 forall|i: int| 0 <= i < labels@.len() ==> (#[trigger] labels@[i]).v().len() > 0,
+                spec_name(b__, old(buffer).position as int, old(buffer).position as int) == onto(vals(labels@), spec_name(b__, old(buffer).position as int, buffer.position as int)),
             invariant
                 buffer.wf(), buffer.octets == old(buffer).octets,
-                buffer.position >= start, start == old(buffer).position,
+                buffer.position >= old(buffer).position, START_IS_ENTRY_POSITION
                 all_labels_wf(labels@),
                 len == labels_sum(labels@),
+                b__ == buffer.octets@,
             ensures
-                buffer.position > start,
+                buffer.position > old(buffer).position,
                 len <= 255 ==> shape_ok(labels@),
+                len <= 255 ==> spec_name(b__, old(buffer).position as int, old(buffer).position as int) == Some((vals(labels@), buffer.position as int)), // [C03:name_read_as_an_independent_decoder_does]
+                len > 255 ==> name_at(b__, old(buffer).position as int) is None, // [C03:accepts_exactly_the_well_formed_names]
             decreases buffer.octets@.len() - buffer.position,""",
-            "entry": "broadcast use lemma_labels_sum_push, lemma_labels_sum_concat;"}}},
+            "entry": "broadcast use lemma_labels_sum_push, lemma_labels_sum_concat, group_name_spec; let ghost p0__ = buffer.position as int; let ghost lv0__ = vals(labels@);"}}},
 }
 for t, e in (("QueryType", "spec_qtype_from"), ("QueryClass", "spec_qclass_from"), ("RecordType", "spec_rtype_from"), ("RecordClass", "spec_rclass_from")):
     SPECS[f"{t}::deserialise"] = {"props": ["C03"], "contract": """    requires old(buffer).wf(),
@@ -74,12 +96,17 @@ SPECS["Header::deserialise"]["anchors"] = [{"after": "let flags2 = buffer.next_u
 SPECS["Question::deserialise"] = {"props": ["C03"], "contract": """    requires old(buffer).wf(),
     ensures """ + BUF_FRAME + """
         r is Ok ==> r->Ok_0.name.wf(), // [C03,C16:decoded_name_wf]
-        r is Err ==> err_id(r->Err_0) == Some(id), // [C03:error_carries_id]"""}
-SPECS["ResourceRecord::deserialise"] = {"props": ["C03"], "rewrites": [("R6", r6_inline_closure)], "contract": """    requires old(buffer).wf(),
+        r is Err ==> err_id(r->Err_0) == Some(id), // [C03:error_carries_id]
+        r is Ok <==> question_at(old(buffer).octets@, old(buffer).position as int) is Some, // [C03:accepts_exactly_the_well_formed_questions]
+        r is Ok ==> question_is(r->Ok_0, old(buffer).octets@, old(buffer).position as int) && final(buffer).position == question_at(old(buffer).octets@, old(buffer).position as int)->Some_0, // [C03:question_read_as_an_independent_decoder_does]"""}
+SPECS["ResourceRecord::deserialise"] = {"props": ["C03"], "rewrites": [("R6", r6_inline_closure)], "attrs": "#[verifier::rlimit(60)] // 20 match arms, 3-4 s of SMT time", "contract": """    requires old(buffer).wf(),
     ensures """ + BUF_FRAME + """
         r is Ok ==> r->Ok_0.name.wf(), // [C03,C16:decoded_name_wf]
         r is Ok ==> rr_names_wf(r->Ok_0.rtype_with_data), // [C03,C16:decoded_rdata_names_wf]
-        r is Err ==> err_id(r->Err_0) == Some(id), // [C03:error_carries_id]"""}
+        r is Err ==> err_id(r->Err_0) == Some(id), // [C03:error_carries_id]
+        r is Ok ==> rr_prefix_at(old(buffer).octets@, old(buffer).position as int) is Some, // [C03:record_header_present]
+        r is Ok ==> rr_header_is(r->Ok_0, old(buffer).octets@, old(buffer).position as int), // [C03:record_header_read_as_an_independent_decoder_does]
+        r is Ok ==> final(buffer).position == rr_end(old(buffer).octets@, old(buffer).position as int), // [C03:rdlength_equals_the_rdata_consumed]"""}
 SPECS["Message::deserialise"] = {"props": ["C03"], "contract": """    requires old(buffer).wf(), old(buffer).position == 0,
     ensures """ + BUF_FRAME + """
         r is Ok ==> old(buffer).octets@.len() >= 12 && msg_counts_ok(r->Ok_0, old(buffer).octets@), // [C03:section_lengths_equal_header_counts]
@@ -114,6 +141,97 @@ pub open spec fn err_id(e: Error) -> Option<u16> {
         Error::DomainLabelInvalid(id) => Some(id),
     }
 }
+
+// ---- C03 stage 2: an independent reading of a (possibly compressed) name, written from RFC 1035 sections 3.1 and 4.1.4 ----
+pub open spec fn lower_seq(s: Seq<u8>) -> Seq<u8> { Seq::new(s.len(), |i: int| lower(s[i])) }
+pub open spec fn onto(pre: Seq<Seq<u8>>, o: Option<(Seq<Seq<u8>>, int)>) -> Option<(Seq<Seq<u8>>, int)> {
+    match o { None => None, Some(t) => Some((pre + t.0, t.1)) }
+}
+// the name that started at offset `start`, read on from offset `pos`: its remaining labels (lower-cased, the root label last)
+// and the offset just after the name in the stream it started in.  A length octet 1..=63 introduces a label, 0 ends the name,
+// an octet >= 192 together with the next octet is a pointer, which must point strictly before the start of the name; 64..=191 is invalid.
+pub open spec fn spec_name(b: Seq<u8>, start: int, pos: int) -> Option<(Seq<Seq<u8>>, int)>
+    decreases start, b.len() - pos
+{
+    if !(0 <= start <= pos < b.len()) { None }
+    else {
+        let size = b[pos];
+        if size == 0 { Some((seq![Seq::<u8>::empty()], pos + 1)) }
+        else if size <= 63 {
+            if pos + 1 + size > b.len() { None }
+            else { onto(seq![lower_seq(b.subrange(pos + 1, pos + 1 + size))], spec_name(b, start, pos + 1 + size)) }
+        } else if size >= 192 {
+            if pos + 2 > b.len() { None }
+            else {
+                let ptr = be16(size & 0x3f, b[pos + 1]) as int;
+                if ptr >= start { None }
+                else { match spec_name(b, ptr, ptr) { None => None, Some(t) => Some((t.0, pos + 2)) } }
+            }
+        } else { None }
+    }
+}
+// encoded length of a label sequence: one length octet per label plus the label octets
+pub open spec fn vsum(vs: Seq<Seq<u8>>) -> nat
+    decreases vs.len()
+{ if vs.len() == 0 { 0 } else { vsum(vs.drop_last()) + 1 + vs.last().len() } }
+// "names of at most 255 octets"
+pub open spec fn name_at(b: Seq<u8>, pos: int) -> Option<(Seq<Seq<u8>>, int)> {
+    match spec_name(b, pos, pos) { None => None, Some(t) => if vsum(t.0) <= 255 { Some(t) } else { None } }
+}
+pub open spec fn vals(ls: Seq<Label>) -> Seq<Seq<u8>> { Seq::new(ls.len(), |i: int| ls[i].v()) }
+
+pub broadcast proof fn lemma_vals_push(ls: Seq<Label>, l: Label)
+    ensures #[trigger] vals(ls.push(l)) == vals(ls) + seq![l.v()]
+{ assert(vals(ls.push(l)) =~= vals(ls) + seq![l.v()]); }
+pub broadcast proof fn lemma_vals_concat(a: Seq<Label>, c: Seq<Label>)
+    ensures #[trigger] vals(a + c) == vals(a) + vals(c)
+{ assert(vals(a + c) =~= vals(a) + vals(c)); }
+pub proof fn lemma_onto_onto(pre: Seq<Seq<u8>>, x: Seq<Seq<u8>>, o: Option<(Seq<Seq<u8>>, int)>)
+    ensures onto(pre, onto(x, o)) == onto(pre + x, o)
+{ if o is Some { assert(pre + (x + o->Some_0.0) =~= (pre + x) + o->Some_0.0); } }
+pub proof fn lemma_onto_empty(o: Option<(Seq<Seq<u8>>, int)>)
+    ensures onto(Seq::<Seq<u8>>::empty(), o) == o
+{ if o is Some { assert(Seq::<Seq<u8>>::empty() + o->Some_0.0 =~= o->Some_0.0); } }
+pub broadcast proof fn lemma_vsum_concat(a: Seq<Seq<u8>>, c: Seq<Seq<u8>>)
+    ensures #[trigger] vsum(a + c) == vsum(a) + vsum(c)
+    decreases c.len()
+{
+    if c.len() == 0 { assert(a + c =~= a); }
+    else { assert((a + c).drop_last() =~= a + c.drop_last()); lemma_vsum_concat(a, c.drop_last()); }
+}
+pub broadcast proof fn lemma_vsum_vals(ls: Seq<Label>)
+    ensures #[trigger] vsum(vals(ls)) == labels_sum(ls)
+    decreases ls.len()
+{
+    if ls.len() > 0 { assert(vals(ls).drop_last() =~= vals(ls.drop_last())); lemma_vsum_vals(ls.drop_last()); }
+}
+pub broadcast group group_name_spec { lemma_vals_push, lemma_vals_concat, lemma_vsum_concat, lemma_vsum_vals }
+// a question: name, then QTYPE and QCLASS (two octets each); the offset just after it
+pub open spec fn question_at(b: Seq<u8>, pos: int) -> Option<int> {
+    match name_at(b, pos) { None => None, Some(t) => if t.1 + 4 <= b.len() { Some(t.1 + 4) } else { None } }
+}
+pub open spec fn question_is(q: Question, b: Seq<u8>, pos: int) -> bool {
+    let e = name_at(b, pos)->Some_0.1;
+    &&& vals(q.name.labels@) == name_at(b, pos)->Some_0.0
+    &&& q.qtype == spec_qtype_from(be16(b[e], b[e + 1]))
+    &&& q.qclass == spec_qclass_from(be16(b[e + 2], b[e + 3]))
+}
+// a resource record's fixed part: name, TYPE, CLASS, TTL (4 octets), RDLENGTH; yields the offset of the RDATA
+pub open spec fn rr_prefix_at(b: Seq<u8>, pos: int) -> Option<int> {
+    match name_at(b, pos) { None => None, Some(t) => if t.1 + 10 <= b.len() { Some(t.1 + 10) } else { None } }
+}
+pub open spec fn rr_header_is(rr: ResourceRecord, b: Seq<u8>, pos: int) -> bool {
+    let e = name_at(b, pos)->Some_0.1;
+    &&& vals(rr.name.labels@) == name_at(b, pos)->Some_0.0
+    &&& spec_rtype_of(rr.rtype_with_data) == spec_rtype_from(be16(b[e], b[e + 1]))
+    &&& rr.rclass == spec_rclass_from(be16(b[e + 2], b[e + 3]))
+    &&& rr.ttl == be32(b[e + 4], b[e + 5], b[e + 6], b[e + 7])
+}
+// "RDLENGTH equal to the RDATA actually consumed": the record ends RDLENGTH octets after its RDATA begins
+pub open spec fn rr_end(b: Seq<u8>, pos: int) -> int {
+    let e = name_at(b, pos)->Some_0.1;
+    e + 10 + be16(b[e + 8], b[e + 9])
+}
 pub open spec fn msg_counts_ok(m: Message, o: Seq<u8>) -> bool {
     &&& o.len() >= 12
     &&& m.questions@.len() == be16(o[4], o[5])
@@ -136,6 +254,12 @@ def build(G):
     assumed = as_assumed(NAME_SPECS, ["Label::new", "Label::len", "Label::is_empty", "Label::try_from"])
     specs = dict(SPECS)
     specs.update(assumed)
+    # `start` (the offset a name begins at) is a local bound before the label loop; the loop contract is stated over
+    # old(buffer).position and ties `start` to it only when the source has that shape (otherwise `start` is not in scope there)
+    nd = dict(specs["DomainName::deserialise"]); lp = dict(nd["loops"]["0"])
+    bound_before = re.search(r"let start = buffer\.position;\s*'outer: loop", D.s) is not None
+    lp["spec"] = lp["spec"].replace("START_IS_ENTRY_POSITION", "start == old(buffer).position," if bound_before else "")
+    nd["loops"] = {"0": lp}; specs["DomainName::deserialise"] = nd
     G.impl(T, "Label", ["new", "len", "is_empty"], "Label::", specs)
     G.impl(T, "TryFrom<&[u8]> for Label", ["try_from"], "Label::", specs)
     G.impl(D, "<'a> ConsumableBuffer<'a>", ["new", "next_u8", "next_u16", "next_u32", "take", "at_offset"], "ConsumableBuffer::", specs)
@@ -151,6 +275,12 @@ def build(G):
 
 
 CANARIES = [
+    {"name": "rdlength_slack_accepted", "file": DESER, "old": "if rdata_stop == rdata_start + (rdlength as usize) {", "new": "if rdata_stop <= rdata_start + (rdlength as usize) {"},
+    {"name": "ttl_read_as_u16", "file": DESER, "old": "let ttl = buffer.next_u32().ok_or(Error::ResourceRecordTooShort(id))?;", "new": "let ttl = u32::from(buffer.next_u16().ok_or(Error::ResourceRecordTooShort(id))?);\n        let _ = buffer.next_u16().ok_or(Error::ResourceRecordTooShort(id))?;"},
+    {"name": "question_class_before_type", "file": DESER, "old": "        let qtype = QueryType::deserialise(id, buffer)?;\n        let qclass = QueryClass::deserialise(id, buffer)?;", "new": "        let qclass = QueryClass::deserialise(id, buffer)?;\n        let qtype = QueryType::deserialise(id, buffer)?;"},
+    {"name": "prefix_10_accepted_as_pointer", "file": DESER, "old": "} else if size >= 192 {", "new": "} else if size >= 128 {"},
+    {"name": "pointer_offset_ignores_high_bits", "file": DESER, "old": "let hi = size & 0b0011_1111;", "new": "let hi = size & 0b0000_1111;"},
+    {"name": "name_cut_at_first_pointer_target_label", "file": DESER, "old": "                labels.append(&mut other.labels);\n                break 'outer;", "new": "                labels.push(other.labels.pop().unwrap());\n                break 'outer;"},
     {"name": "ptr_ge_to_gt", "file": DESER, "old": "if ptr >= start {", "new": "if ptr > start {"},
     {"name": "u16_off_by_one", "file": DESER, "old": "if self.octets.len() > self.position + 1 {", "new": "if self.octets.len() > self.position {"},
     {"name": "drop_255_check", "file": DESER, "old": "if len <= DOMAINNAME_MAX_LEN {\n            Ok(DomainName { labels, len })", "new": "if len <= 300 {\n            Ok(DomainName { labels, len })"},
